@@ -154,6 +154,8 @@ def check_objects(res, rng, t, reps):
             if kind in ('point_pair', 'circle'):
                 # positions in which C*~C (C = 1 + X2*X1) is a negative scalar: the 'infinite roots' branch of the normalising root, R*~R = -1
                 positions += ['disjoint', 'nested_opposite', 'coaxial_opposite']
+                # and just outside such a position (general position, but C*~C has a tiny positive scalar-plus-norm next to a dominant grade-4 part)
+                positions += ['near_disjoint']
             pts0, X10 = pts, X1
             for position in positions:
                 pts, X1 = pts0, X10
@@ -170,7 +172,7 @@ def check_objects(res, rng, t, reps):
                     Tm = t.generate_translation_rotor(-cen)
                     V = ~Tm * t.generate_dilation_rotor(float(rng.choice([0.5, 2.0]))) * Tm
                     X2 = (V * X1 * ~V).normal()
-                elif position in ('disjoint', 'nested_opposite', 'coaxial_opposite'):
+                elif position in ('disjoint', 'nested_opposite', 'coaxial_opposite', 'near_disjoint'):
                     # canonical round: centre c (integers), radius r, in the line c + s*e1 (point pair) / the plane through c spanned by e1, e2 (circle)
                     c = ipt(rng, t, -3, 3)
                     r = float(rng.choice([1.0, 2.0, 0.5, 3.0]))
@@ -180,6 +182,15 @@ def check_objects(res, rng, t, reps):
                     if position == 'disjoint':
                         # same line / same plane, no common point, same orientation
                         V = t.generate_translation_rotor((2 * r + float(rng.choice([0.5, 1.0, 3.0]))) * t.e1)
+                        X2 = (V * X1 * ~V).normal()
+                    elif position == 'near_disjoint':
+                        # as 'disjoint', then tilted out of the common line / plane by 2^-12 rad about e1 or lifted by 2^-12 along e3
+                        V = t.generate_translation_rotor((2 * r + float(rng.choice([0.5, 1.0, 3.0]))) * t.e1)
+                        small = 2.0 ** -12
+                        if rng.random() < 0.5:
+                            V = V * (math.cos(small / 2) * (1 + 0 * t.e1) - math.sin(small / 2) * t.e23)
+                        else:
+                            V = t.generate_translation_rotor(small * t.e3) * V
                         X2 = (V * X1 * ~V).normal()
                     elif position == 'nested_opposite':
                         Tm = t.generate_translation_rotor(-c)
@@ -241,8 +252,17 @@ def check_roots_logs(res, rng, t, reps):
         TR = rigid(rng, t, 'general')
         S = t.generate_dilation_rotor(float(rng.choice([0.5, 0.75, 1.5, 2.0])))
         TRw = rigid(rng, t, 'wide')
-        for i_rl, (name, R) in enumerate((('TR', TR), ('TRS', TR * S), ('TR', TRw), ('TR', -TR))):
-            i_rl = i_rl + 4 * i_rep
+        # screw motions whose rotation is just short of a full turn (R close to -T), translation along the axis. Within the conditioning of
+        # `1 + R` (2^-10 rad short, translation 0.01) the roots are accurate to 1e-12 and must be; closer to the full turn with a larger axial
+        # translation (2^-12 rad, 0.5) `square_roots_of_rotor` / `n_th_rotor_root` lose accuracy (1.3e-6; `general_logarithm` does not): recorded finding
+        def screw(k_, d_):
+            th_s = 2 * math.pi - 2.0 ** -k_
+            return t.generate_translation_rotor(d_ * t.e3) * (math.cos(th_s / 2) * one - math.sin(th_s / 2) * t.e12)
+        rotors = [('TR', TR, None), ('TRS', TR * S, None), ('TR', TRw, None), ('TR', -TR, None), ('TR', screw(10, 0.01), None)]
+        if i_rep == 0:
+            rotors.append(('TR', screw(12, 0.5), 'screw_near_full_turn'))
+        for i_rl, (name, R, tagged) in enumerate(rotors):
+            i_rl = i_rl + 6 * i_rep
             site = dict(site0, rotor=name)
             inp = dict(site, R=R.value.tolist())
             res.case(('roots', name, tuple(np.round(R.value, 9).tolist())), nontrivial=True, sample=dict(rotor=name))
@@ -250,7 +270,8 @@ def check_roots_logs(res, rng, t, reps):
             with common.guard(res, 'square_roots_of_rotor', site, inp):
                 r = t.square_roots_of_rotor(R)[0]
                 if not pm_near(r * r, R, mag(R)):
-                    res.violate('square_roots_of_rotor(R)[0]^2 != +-R', inp, (r * r).value.tolist(), R.value.tolist(), dict(site, op='square_root'))
+                    res.violate('square_roots_of_rotor(R)[0]^2 != +-R', inp, (r * r).value.tolist(), R.value.tolist(),
+                                dict(site, op='square_root', **(dict(case=tagged) if tagged else {})))
             with common.guard(res, 'n_th_rotor_root', site, inp):
                 for n in (2, 4):
                     r = t.n_th_rotor_root(R, n)
@@ -258,7 +279,8 @@ def check_roots_logs(res, rng, t, reps):
                     for _k in range(n - 1):
                         p = p * r
                     if not pm_near(p, R, mag(R), 1e-5):
-                        res.violate('n_th_rotor_root(R, n)^n != +-R', dict(inp, n=n), p.value.tolist(), R.value.tolist(), dict(site, op='nth_root', n=n))
+                        res.violate('n_th_rotor_root(R, n)^n != +-R', dict(inp, n=n), p.value.tolist(), R.value.tolist(),
+                                    dict(site, op='nth_root', n=n, **(dict(case=tagged) if tagged else {})))
             with common.guard(res, 'general_logarithm', site, inp):
                 lg = rp.general_logarithm(R)
                 back = lg.exp()
